@@ -64,11 +64,10 @@ theorem gcSub_keeps {ext : Nat → Nat} {m m' : Mgr} (h : ReorderInv ext m) (hI 
 
 theorem siftEnv (ext : Nat → Nat) : SiftEnv (ReorderInv ext) (HeldSame ext) := by
   refine { toSwapOK := swapOK ext, gc := ?_, sched := ?_ }
-  · intro m m' h hrun
-    obtain ⟨m'', hrun', hp⟩ := collectGarbage_spec m ext h.inv h.refExact
-    rw [hrun] at hrun'
-    cases hrun'
-    exact gcSub_keeps h hp.inv hp.refExact hp.sub
+  · intro m h
+    obtain ⟨m', hrun, hp⟩ := collectGarbage_spec m ext h.inv h.refExact
+    obtain ⟨a, b⟩ := gcSub_keeps h hp.inv hp.refExact hp.sub
+    exact ⟨m', hrun, a, b, hp.sub.vars⟩
   · intro m s h
     exact ⟨⟨h.inv.setSched s, h.order, h.refExact.congr rfl rfl, h.off, h.rootsHeld⟩, fun u _ a => rfl⟩
 
